@@ -143,11 +143,11 @@ theorem basic_level_outcome (prog : SProgram) (fuel : Nat) (hw : progWfB prog = 
 
 /-! non-vacuity: an accepted program on which the reference finishes normally, and one that ends in a BASIC error -/
 
-private def x0 : Var := ⟨false, 0⟩
+def x0 : Var := ⟨false, 0⟩
 
 /-- `X% = 1 : Inc X% : PRINT X% + F%(2)` with `SUB Inc (N%) : N% = N% + k : END SUB` and
 `FUNCTION F% (A%) : F% = A% * 2 : END FUNCTION` (procedures numbered FUNCTIONs first) -/
-private def demo (k : Int) : SProgram :=
+def demo (k : Int) : SProgram :=
   { slots := [.int], gslots := [],
     body := .seq (.assign x0 .int (.lit (.int 1) ⟨1, 6⟩) ⟨1, 1⟩)
       (.seq (.callSub 1 (.cons (.var x0 .int ⟨2, 10⟩) "N" .int .nil) ⟨2, 1⟩)
@@ -286,7 +286,7 @@ theorem basic_level_outcome (prog : SProgram) (fuel : Nat) (hw : progWfB prog = 
 /-! non-vacuity: an accepted program on which the reference finishes normally, and one that ends in a BASIC error -/
 
 /-- `DIM A%(1 TO 3) : FOR I% = 1 TO k : A%(I%) = I% * 2 : NEXT : PRINT A%(2) + UBOUND(A%)` -/
-private def demo (k : Int) : SProgram :=
+def demo (k : Int) : SProgram :=
   { slots := [.int], arrs := [.int],
     body := .seq (.dimArr 0 .int (.cons (some (.lit (.int 1) ⟨1, 8⟩)) (.lit (.int 3) ⟨1, 13⟩) .nil) ⟨1, 1⟩)
       (.seq (.forLoop 0 .int (.lit (.int 1) ⟨2, 10⟩) (.lit (.int k) ⟨2, 15⟩) none
@@ -425,7 +425,7 @@ theorem basic_level_outcome (prog : SProgram) (fuel : Nat) (hw : progWfB prog = 
 
 /-- `TYPE T : N AS INTEGER : S AS STRING * 3 : END TYPE : DIM R AS T : R.N = k : R.S = "abcdef" : R.N = R.N + 1 :
 PRINT R.S; R.N` -/
-private def demo (k : Int) : SProgram :=
+def demo (k : Int) : SProgram :=
   { types := [.cons "N" (.sc .int) (.cons "S" (.fix 3) .nil)], slots := [.udt 0],
     body := .seq (.dim 0 (.udt 0) ⟨5, 1⟩)
       (.seq (.assign 0 ["N"] (.sc .int) (.lit (.int k) ⟨6, 7⟩) ⟨6, 1⟩)
